@@ -121,6 +121,11 @@ SN_SHAPES = {
     "member-named-like-base": {"sn7a.py": "class Base:\n    def b(self): ...\nclass Options:\n    def o(self): ...\nclass Command(Base, Options):\n    Options = None\nclass Sub(Command):\n    pass\n"},
     "nested-class-named-like-base": {"sn7a.py": "class Meta:\n    abstract = True\n    def m(self): ...\nclass Model(Meta):\n    class Meta:\n        x = 1\nclass Leaf(Model, Meta):\n    pass\n"},
     "member-named-like-imported-base": {"sn7a.py": "class Options:\n    def o(self): ...\n", "sn7b.py": "from sn7a import Options\nclass Command(Options):\n    def Options(self): ...\n"},
+    # the base's NAME is bound twice in the module: an explicit import, then (lower) a wildcard import that brings another class of that name -- and the reverse order
+    "import-then-wildcard": {"sn7a.py": "class Root:\n    def r(self): ...\nclass Base(Root):\n    def old(self): ...\n", "sn7b.py": "class Mixin:\n    def shared(self): ...\nclass Base(Mixin):\n    def new(self): ...\n",
+                             "sn7c.py": "from sn7a import Base\nfrom sn7b import *\nclass Extra(Base):\n    pass\nclass Two(Base, Mixin):\n    pass\n"},
+    "wildcard-then-import": {"sn7a.py": "class Root:\n    def r(self): ...\nclass Base(Root):\n    def old(self): ...\n", "sn7b.py": "class Mixin:\n    def shared(self): ...\nclass Base(Mixin):\n    def new(self): ...\n",
+                             "sn7c.py": "from sn7b import *\nfrom sn7a import Base\nclass Extra(Base):\n    pass\n"},
     "with-mixin": {"sn7a.py": "class C:\n    pass\nclass Mixin:\n    pass\n", "sn7b.py": "from sn7a import C, Mixin\nclass C(Mixin, C):\n    pass\n"},
 }
 
